@@ -29,7 +29,9 @@ EXPLANATION = (
     "every RequestResponse.from_bool(e) receives a bool on every path of every class-hierarchy target of e (a None or "
     "a non-bool makes from_bool return None and the next history record raises inside step); R1.6 every override of a "
     "method the pipeline calls polymorphically accepts the arguments of the pipeline's call; R1.7 no `raise` in the "
-    "pipeline core and no `d.get(k).attr` dereference on a registry from which entries can be removed at run time. "
+    "pipeline core and no `d.get(k).attr` dereference on a registry from which entries can be removed at run time; R1.8 every "
+    "explicit raise reachable in the resolved call graph (depth 4) from a request handler is triaged in a frozen table "
+    "(guarded on that route, or reported) - a new one is a violation (may-analysis: reachable, not necessarily raised). "
     "NOT decided: that no input whatsoever makes a library call raise (KeyError/IndexError/validation errors on "
     "run-time values) and finiteness of rewards as numbers."
 )
@@ -436,7 +438,81 @@ def r1_7(ctx: Ctx) -> None:
     ctx.floor("R1.7", "`.get(k)` dereference sites inspected", n, 10)
 
 
+# explicit raise statements reachable (resolved call graph, depth 4) from a request handler, triaged by hand.
+# value: reason why the raise cannot be reached from a request (guard named), or None = genuinely reachable (reported).
+RAISE_TRIAGE: Dict[Tuple[str, str], Optional[str]] = {
+    ("port_validator", "ValueError"): "configure requests come from actions whose schema already validated the port (pydantic Port type)",
+    ("Folder.remove_file", "Exception"): "only reached through remove_file_by_name, which passes a File taken from self.files",
+    ("Folder.add_file", "Exception"): "the create-file handler refuses an existing name unless force is set (C15 R15.4); the file passed is a fresh File",
+    ("AccessControlList.add_rule", "ValueError"): None,
+    ("AccessControlList.remove_rule", "ValueError"): None,
+}
+
+
+def r1_8(ctx: Ctx) -> None:
+    ix = ctx.ix
+    ctx.rule("R1.8", "explicit `raise` statements reachable in the resolved call graph (depth 4) from a request handler are "
+                     "either guarded on that route (frozen triage table, one reason each) or reported: a handler that "
+                     "raises makes step() raise.  May-analysis: 'reachable in the call graph', not 'raised'")
+    from ..inventory import own_nodes
+    from ..purity import resolve_callees
+    tree = RequestTree(ix)
+    roots: List[FuncInfo] = []
+    for ents in tree.slots.values():
+        for e in ents:
+            if e.target_kind == "handler":
+                encl, node = e.target
+                if isinstance(node, ast.Lambda):
+                    roots.append(FuncInfo(f"{encl.qualname}.<lambda@{node.lineno}>", "<lambda>", node, encl.module, None, encl, []))
+                else:
+                    roots.append(encl)
+    seen: Dict[int, Tuple[FuncInfo, List[str]]] = {}
+    work = [(r, 0, [r.short]) for r in roots]
+    while work:
+        f, d, path = work.pop()
+        if id(f.node) in seen:
+            continue
+        seen[id(f.node)] = (f, path)
+        if d >= 4:
+            continue
+        for n, lam in own_nodes(f.node):
+            if isinstance(n, ast.Call):
+                tg, _ = resolve_callees(ix, f, n)
+                for x in tg:
+                    work.append((x, d + 1, path + [x.short]))
+    n_sites = 0
+    reported: Set[Tuple[str, str]] = set()
+    for f, path in seen.values():
+        if isinstance(f.node, ast.Lambda):
+            continue
+        # raises inside a try body that has handlers are caught locally
+        caught: Set[int] = set()
+        for t in ast.walk(f.node):
+            if isinstance(t, ast.Try) and t.handlers:
+                for b in t.body:
+                    for x in ast.walk(b):
+                        caught.add(id(x))
+        for r in ast.walk(f.node):
+            if not isinstance(r, ast.Raise) or id(r) in caught:
+                continue
+            exc = r.exc.func if isinstance(r.exc, ast.Call) else r.exc
+            key = (f.short, unparse(exc) if exc is not None else "re-raise")
+            if key in reported:
+                continue
+            reported.add(key)
+            n_sites += 1
+            if key in RAISE_TRIAGE and RAISE_TRIAGE[key] is not None:
+                ctx.ok("R1.8", ctx.key(f, f"raise {key[1]} not reachable from a request"), f.loc(r), RAISE_TRIAGE[key] + f" (route {' > '.join(path[-3:])})")
+            else:
+                ctx.fail("R1.8", ctx.key(f, f"raise {key[1]} not reachable from a request"), f.loc(r),
+                         f"`{unparse(r)[:70]}` is reachable in the call graph from a request handler ({' > '.join(path[-3:])}) with no guard on "
+                         "that route: the exception propagates through apply_request out of step()")
+    ctx.floor("R1.8", "raise sites in the handler closure", n_sites, 4)
+    ctx.count("functions in the request-handler closure (depth 4)", len(seen))
+
+
 def check(ctx: Ctx) -> None:
+    r1_8(ctx)
     r1_1(ctx)
     r1_2(ctx)
     r1_3(ctx)
